@@ -167,7 +167,7 @@ func Run(c *core.Ctx) {
 
 	// ---- R4, R5
 	wiring(c, it, wrap, fkey)
-	c.Expect("R5.predicate", 3)
+	c.Expect("R5.predicate", 2)
 	c.Expect("R4.verdict", 8)
 	c.Expect("R4.caller", 2)
 }
